@@ -9,7 +9,7 @@ from . import layer_folds as lf
 from ..source import norm, walk_no_nested
 from .common import is_name
 
-EXPLANATION = "(R1) interprocedural provenance analysis (D3) from map, histogram1d, histogram2d, scatter and plot through every resolved callee: no store, del, in-place operator or mutating method reaches an object that may alias a caller's argument (ax/fig and the matplotlib norm autoscaling are named exemptions); tuples, zip/enumerate/items keep positions apart; (R2) parse_layer, Layer.update, Layer.copy and the component views interpreted over {unset, falsy, set} x {unset, set} for every option field jointly and one field at a time: layer value wins unless None, extra options merged, result distinct with its own dictionaries; get_norm over norm kinds; every entry point hands each call-level option to parse_layer under its own name (dependence analysis D4 into parse_layer's parameters); (R3) no module-level mutable state of plot/ or core/layer.py is written; (R4) a call-level option (incl. **kwargs) reaches library calls and comparisons only through the merged layer (D4 with relabelling at parse_layer). (R5) the effective option of a layer acts on that layer only: histogram2d and map folded with layers whose effective operations / colour options differ, and with the same Layer objects in two calls."
+EXPLANATION = "(R1) interprocedural provenance analysis (D3) from map, histogram1d, histogram2d, scatter and plot through every resolved callee: no store, del, in-place operator or mutating method reaches an object that may alias a caller's argument (ax/fig and the matplotlib norm autoscaling are named exemptions); tuples, zip/enumerate/items keep positions apart; (R2) parse_layer, Layer.update, Layer.copy and the component views interpreted over {unset, falsy, set} x {unset, set} for every option field jointly and one field at a time: layer value wins unless None, extra options merged, result distinct with its own dictionaries; get_norm over norm kinds; every entry point hands each call-level option to parse_layer under its own name (dependence analysis D4 into parse_layer's parameters); (R3) no module-level mutable state of plot/ or core/layer.py is written; (R4) a call-level option (incl. **kwargs) reaches library calls and comparisons only through the merged layer (D4 with relabelling at parse_layer). (R5) the effective option of a layer acts on that layer only: histogram2d and map folded with layers whose effective operations / colour options differ, and with the same Layer objects in two calls. R2 also sets every option to every word the plotting code tests options against (a Layer that explicitly chooses the default keeps it)."
 NOT_DECIDED = 'what matplotlib draws; equality of the returned data as numbers (follows from R1/R3 + determinism of the kernels)'
 TRUSTED = ('CPython ast', 'catalogue of mutating methods (sa/origin.py)', "library objects' non-catalogued methods do not mutate their receiver", 'the interpreter sa/models.py (ModelEval) and its library models')
 TECHNIQUE = 'static analysis: interprocedural provenance (may-alias-a-parameter) and dependence analyses over the resolved call graph; abstract interpretation of the option-merging code'
